@@ -15,6 +15,7 @@
 #include <fcppt/container/pop_back.hpp>
 #include <fcppt/container/pop_front.hpp>
 #include <fcppt/enum/from_string.hpp>
+#include <fcppt/enum/to_string.hpp>
 #include <fcppt/enum/to_string_impl_fwd.hpp>
 #include <fcppt/extract_from_string.hpp>
 #include <fcppt/filesystem/file_size.hpp>
@@ -26,15 +27,21 @@
 #include <fcppt/options/impl/is_flag.hpp>
 #include <fcppt/options/impl/next_arg.hpp>
 #include <fcppt/runtime_index.hpp>
+#include <fcppt/tag.hpp>
+#include <fcppt/extract_from_string_locale.hpp>
 #include <fcppt/args_vector.hpp>
 
+#include <sanitizer/asan_interface.h>
 #include <sys/stat.h>
 #include <sys/types.h>
 #include <cstdio>
 #include <cstring>
 #include <deque>
+#include <list>
+#include <unordered_map>
 #include <filesystem>
 #include <fstream>
+#include <limits>
 #include <map>
 #include <memory>
 #include <sstream>
@@ -73,22 +80,82 @@ struct d2 : base {};
 
 std::vector<long long> ints(std::string const &s) { return vh::int_list(s); }
 
-std::string payload(std::string const &tok) // "s:chars"
+// a value as a string that lives on the heap (longer than the small-string buffer): reading it after its
+// destruction is a use-after-free for ASan, which a trivially destructible element would not show
+std::string long_string(long long v) { return std::to_string(v) + ":" + std::string(40, 'x'); }
+long long long_value(std::string const &s)
 {
+  if (s.size() < 42 || s.compare(s.size() - 40, 40, std::string(40, 'x')) != 0)
+    return -999;
+  return std::stoll(s.substr(0, s.find(':')));
+}
+template <typename C>
+std::string join_long(C const &c)
+{
+  std::vector<long long> v;
+  for (auto const &e : c)
+    v.push_back(long_value(e));
+  return vh::join(v);
+}
+std::string optlong(fcppt::optional::object<std::string> const &o)
+{
+  return o.has_value() ? "some " + std::to_string(long_value(o.get_unsafe())) : std::string{"none"};
+}
+
+std::string payload(std::string const &tok) // "s:chars" or "x:hex"
+{
+  if (tok.size() >= 2 && tok[0] == 'x' && tok[1] == ':')
+  {
+    std::string r;
+    for (std::size_t i = 2; i + 1 < tok.size(); i += 2)
+      r.push_back(static_cast<char>(std::stoi(tok.substr(i, 2), nullptr, 16)));
+    return r;
+  }
   return tok.substr(2);
+}
+
+std::string hex_payload(std::string const &s);
+
+// a string result: `s:<text>` when it consists of printable non-blank ASCII, `x:<hex>` otherwise
+std::string out_str(std::string const &s)
+{
+  for (unsigned char c : s)
+    if (c < 0x21 || c > 0x7e)
+      return hex_payload(s);
+  return "s:" + s;
+}
+
+std::string hex_payload(std::string const &s)
+{
+  static char const digits[] = "0123456789abcdef";
+  std::string r{"x:"};
+  for (unsigned char c : s)
+  {
+    r.push_back(digits[c >> 4]);
+    r.push_back(digits[c & 15]);
+  }
+  return r;
 }
 
 // exact-size heap copy: no terminating zero, ASan redzone right behind the last character
 struct exact
 {
+  // n characters followed by 16 bytes of '#' that are poisoned for ASan: an instrumented read behind the view is
+  // reported, an uninstrumented one (inside libc: getenv, strlen, fopen …) sees garbage instead of a lucky NUL
+  static constexpr std::size_t slack = 16;
   std::unique_ptr<char[]> mem;
   std::size_t n;
-  explicit exact(std::string const &s) : mem(new char[s.size() == 0 ? 1 : s.size()]), n(s.size())
+  explicit exact(std::string const &s) : mem(new char[s.size() + slack]), n(s.size())
   {
     std::memcpy(mem.get(), s.data(), s.size());
+    std::memset(mem.get() + n, '#', slack);
+    ASAN_POISON_MEMORY_REGION(mem.get() + n, slack);
   }
+  exact(exact const &) = delete;
+  exact &operator=(exact const &) = delete;
+  ~exact() { ASAN_UNPOISON_MEMORY_REGION(mem.get() + n, slack); }
   std::string_view view() const { return s_view(); }
-  std::string_view s_view() const { return n == 0 ? std::string_view{mem.get() + 1, 0} : std::string_view{mem.get(), n}; }
+  std::string_view s_view() const { return std::string_view{mem.get(), n}; }
 };
 
 template <typename T>
@@ -108,6 +175,11 @@ std::vector<std::string> split(std::string const &s, char sep)
   std::vector<std::string> r;
   if (s == "_")
     return r;
+  if (s == "__") // the list holding one empty string (would be an empty token on the line)
+  {
+    r.emplace_back();
+    return r;
+  }
   std::size_t pos = 0;
   while (true)
   {
@@ -132,6 +204,9 @@ void make_scratch()
   { std::ofstream f(scratch / "file4096"); f << std::string(4096, 'x'); }
   std::filesystem::create_directory(scratch / "dir");
   std::error_code ec;
+  { std::ofstream f(scratch / "sparse5g"); }
+  std::filesystem::resize_file(scratch / "sparse5g", 5368709120ULL, ec);                       // a hole: larger than 2^32, no blocks
+  ec.clear();
   std::filesystem::create_symlink(scratch / "nowhere", scratch / "dangling", ec);
   std::filesystem::create_symlink(scratch / "file5", scratch / "symfile", ec);
   // paths on which stat() itself fails with something other than "not found"
@@ -141,6 +216,17 @@ void make_scratch()
   std::filesystem::create_directory_symlink(scratch / "dir", scratch / "symdir", ec);         // a link to a directory
   std::filesystem::create_symlink(scratch / "symfile", scratch / "symsym", ec);               // link -> link -> file5
   (void)::mkfifo((scratch / "fifo").c_str(), 0600);                                           // exists, not a regular file
+  // a file whose name has a blank, a newline and bytes that are not UTF-8
+  { std::ofstream f(scratch / "we ird\n\xff\xfe"); f << "1234567"; }
+  // relative paths are resolved against the scratch directory
+  if (::chdir(scratch.c_str()) != 0) {}
+  // a directory with two files, a sub-directory holding one file, and a dangling link
+  std::filesystem::create_directory(scratch / "dir2");
+  { std::ofstream f(scratch / "dir2" / "a"); f << "a"; }
+  { std::ofstream f(scratch / "dir2" / "b.txt"); f << "bb"; }
+  std::filesystem::create_directory(scratch / "dir2" / "sub");
+  { std::ofstream f(scratch / "dir2" / "sub" / "c"); f << "ccc"; }
+  std::filesystem::create_symlink(scratch / "nowhere", scratch / "dir2" / "dang", ec);
 }
 
 void remove_scratch()
@@ -150,9 +236,15 @@ void remove_scratch()
     std::filesystem::remove_all(scratch, ec);
 }
 
+}
+#include "c01_env.cpp"
+namespace c01
+{
 std::string handle1(std::vector<std::string> const &t)
 {
   std::string const &op = t[0];
+  if (auto r = handle_env(t))
+    return *r;
   if (op == "atopt" && t.size() == 3)
   {
     auto const v0 = ints(t[1]);
@@ -161,9 +253,31 @@ std::string handle1(std::vector<std::string> const &t)
     auto const i = static_cast<std::size_t>(vh::to_ull(t[2]));
     std::string const r1 = optref(fcppt::container::at_optional(v, i));
     std::string const r2 = optref(fcppt::container::at_optional(d, i));
+    {
+      // the result refers to the element inside the container (no copy): writing through it changes the container
+      auto const ra = fcppt::container::at_optional(v, i);
+      if (ra.has_value() && (i >= v.size() || &ra.get_unsafe().get() != &v[i]))
+        return "ref-identity-fail";
+      auto const rd = fcppt::container::at_optional(d, i);
+      if (rd.has_value() && (i >= d.size() || &rd.get_unsafe().get() != &d[i]))
+        return "ref-identity-fail";
+    }
     std::vector<long long> const &cv = v;
     std::string const r3 = optref(fcppt::container::at_optional(cv, i));
-    return r1 == r2 && r1 == r3 ? r1 : "containers-disagree " + r1 + " / " + r2 + " / " + r3;
+    // a std::string (characters '0' + value) and a vector of heap strings
+    std::string str;
+    std::vector<std::string> vs;
+    for (auto const e : v0)
+    {
+      str.push_back(static_cast<char>('0' + e));
+      vs.push_back(long_string(e));
+    }
+    vs.shrink_to_fit();
+    auto const rs = fcppt::container::at_optional(str, i);
+    std::string const r4 = rs.has_value() ? "some " + std::to_string(rs.get_unsafe().get() - '0') : std::string{"none"};
+    auto const rv = fcppt::container::at_optional(vs, i);
+    std::string const r5 = rv.has_value() ? "some " + std::to_string(long_value(rv.get_unsafe().get())) : std::string{"none"};
+    return r1 == r2 && r1 == r3 && r1 == r4 && r1 == r5 ? r1 : "containers-disagree " + r1 + " / " + r2 + " / " + r3 + " / " + r4 + " / " + r5;
   }
   if ((op == "front" || op == "back") && t.size() == 2)
   {
@@ -172,7 +286,21 @@ std::string handle1(std::vector<std::string> const &t)
     std::deque<long long> d(v0.begin(), v0.end());
     std::string const r1 = optref(op == "front" ? fcppt::container::maybe_front(v) : fcppt::container::maybe_back(v));
     std::string const r2 = optref(op == "front" ? fcppt::container::maybe_front(d) : fcppt::container::maybe_back(d));
-    return r1 == r2 ? r1 : "containers-disagree";
+    {
+      auto const rv = op == "front" ? fcppt::container::maybe_front(v) : fcppt::container::maybe_back(v);
+      if (rv.has_value() && (v.empty() || &rv.get_unsafe().get() != (op == "front" ? &v.front() : &v.back())))
+        return "ref-identity-fail";
+      auto const rd = op == "front" ? fcppt::container::maybe_front(d) : fcppt::container::maybe_back(d);
+      if (rd.has_value() && (d.empty() || &rd.get_unsafe().get() != (op == "front" ? &d.front() : &d.back())))
+        return "ref-identity-fail";
+    }
+    std::list<std::string> ls;
+    for (auto const e : v0)
+      ls.push_back(long_string(e));
+    std::list<std::string> const &cls = ls;
+    auto const rl = op == "front" ? fcppt::container::maybe_front(cls) : fcppt::container::maybe_back(cls);
+    std::string const r3 = rl.has_value() ? "some " + std::to_string(long_value(rl.get_unsafe().get())) : std::string{"none"};
+    return r1 == r2 && r1 == r3 ? r1 : "containers-disagree";
   }
   if (op == "popback" && t.size() == 2)
   {
@@ -183,14 +311,50 @@ std::string handle1(std::vector<std::string> const &t)
     std::string const r1 = p1 + " rest=" + vh::join(v);
     std::string const p2 = opt(fcppt::container::pop_back(d));
     std::string const r2 = p2 + " rest=" + vh::join(d);
-    return r1 == r2 ? r1 : "containers-disagree";
+    std::vector<std::string> vs;
+    std::deque<std::string> ds;
+    std::list<std::string> ls;
+    for (auto const e : v0)
+    {
+      vs.push_back(long_string(e));
+      ds.push_back(long_string(e));
+      ls.push_back(long_string(e));
+    }
+    {
+      std::string str;
+      for (auto const e : v0)
+        str.push_back(static_cast<char>('0' + e));
+      auto const ps = fcppt::container::pop_back(str);
+      std::string const rs = (ps.has_value() ? "some " + std::to_string(ps.get_unsafe() - '0') : std::string{"none"}) + " rest=" + vh::join(std::vector<long long>(v.begin(), v.end()));
+      if (rs != r1 || str.size() != v.size())
+        return "containers-disagree-string " + r1 + " / " + rs;
+    }
+    std::string const p3 = optlong(fcppt::container::pop_back(vs));
+    std::string const r3 = p3 + " rest=" + join_long(vs);
+    std::string const p4 = optlong(fcppt::container::pop_back(ds));
+    std::string const r4 = p4 + " rest=" + join_long(ds);
+    std::string const p5 = optlong(fcppt::container::pop_back(ls));
+    std::string const r5 = p5 + " rest=" + join_long(ls);
+    return r1 == r2 && r1 == r3 && r1 == r4 && r1 == r5 ? r1 : "containers-disagree " + r1 + " / " + r2 + " / " + r3 + " / " + r4 + " / " + r5;
   }
   if (op == "popfront" && t.size() == 2)
   {
     auto const v0 = ints(t[1]);
     std::deque<long long> d(v0.begin(), v0.end());
     std::string const p1 = opt(fcppt::container::pop_front(d));
-    return p1 + " rest=" + vh::join(d);
+    std::string const r1 = p1 + " rest=" + vh::join(d);
+    std::deque<std::string> ds;
+    std::list<std::string> ls;
+    for (auto const e : v0)
+    {
+      ds.push_back(long_string(e));
+      ls.push_back(long_string(e));
+    }
+    std::string const p2 = optlong(fcppt::container::pop_front(ds));
+    std::string const r2 = p2 + " rest=" + join_long(ds);
+    std::string const p3 = optlong(fcppt::container::pop_front(ls));
+    std::string const r3 = p3 + " rest=" + join_long(ls);
+    return r1 == r2 && r1 == r3 ? r1 : "containers-disagree " + r1 + " / " + r2 + " / " + r3;
   }
   if (op == "findopt" && t.size() == 3)
   {
@@ -200,8 +364,38 @@ std::string handle1(std::vector<std::string> const &t)
       auto const c = kv.find(':');
       m.emplace(std::stoll(kv.substr(0, c)), std::stoll(kv.substr(c + 1))); // first occurrence wins, like the model
     }
-    auto const r = fcppt::container::find_opt(m, std::stoll(t[2]));
-    return r.has_value() ? "some " + std::to_string(r.get_unsafe().get().second) : std::string{"none"};
+    long long const key = std::stoll(t[2]);
+    auto const r = fcppt::container::find_opt(m, key);
+    std::string const r1 = r.has_value() ? "some " + std::to_string(r.get_unsafe().get().second) : std::string{"none"};
+    std::map<long long, long long> const &cm = m;
+    auto const rc = fcppt::container::find_opt(cm, key);
+    std::string const r2 = rc.has_value() ? "some " + std::to_string(rc.get_unsafe().get().second) : std::string{"none"};
+    auto const rm = fcppt::container::find_opt_mapped(m, key);
+    std::string const r3 = rm.has_value() ? "some " + std::to_string(rm.get_unsafe().get()) : std::string{"none"};
+    auto const ri = fcppt::container::find_opt_iterator(m, key);
+    std::string const r4 = ri.has_value() ? (ri.get_unsafe() == m.end() ? std::string{"end-iterator"} : "some " + std::to_string(ri.get_unsafe()->second)) : std::string{"none"};
+    std::unordered_map<long long, long long> um(m.begin(), m.end());
+    auto const ru = fcppt::container::find_opt_mapped(um, key);
+    std::string const r5 = ru.has_value() ? "some " + std::to_string(ru.get_unsafe().get()) : std::string{"none"};
+    std::map<std::string, std::string> sm;
+    for (auto const &kv : m)
+      sm.emplace(long_string(kv.first), long_string(kv.second));
+    auto const rs = fcppt::container::find_opt_mapped(sm, long_string(key));
+    std::string const r6 = rs.has_value() ? "some " + std::to_string(long_value(rs.get_unsafe().get())) : std::string{"none"};
+    // aliasing: the key is a reference to the key stored in the container
+    for (auto const &kv : sm)
+    {
+      auto const ra = fcppt::container::find_opt_mapped(sm, kv.first);
+      if (!ra.has_value() || &ra.get_unsafe().get() != &kv.second)
+        return "alias-fail";
+    }
+    for (auto const &kv : um)
+    {
+      auto const ra = fcppt::container::find_opt(um, kv.first);
+      if (!ra.has_value() || &ra.get_unsafe().get() != &kv)
+        return "alias-fail";
+    }
+    return r1 == r2 && r1 == r3 && r1 == r4 && r1 == r5 && r1 == r6 ? r1 : "containers-disagree " + r1 + " / " + r2 + " / " + r3 + " / " + r4 + " / " + r5 + " / " + r6;
   }
   if (op == "fromrange" && t.size() == 3)
   {
@@ -215,24 +409,52 @@ std::string handle1(std::vector<std::string> const &t)
         out.push_back(e);
       return "some " + vh::join(out);
     };
+    std::deque<long long> d(v0.begin(), v0.end());
+    auto showl = [](auto const &o) {
+      if (!o.has_value())
+        return std::string{"none"};
+      return "some " + join_long(o.get_unsafe());
+    };
+    auto rvalue_strings = [&v0] {
+      std::vector<std::string> vs;
+      for (auto const e : v0)
+        vs.push_back(long_string(e));
+      vs.shrink_to_fit();
+      return vs;
+    };
+    auto all = [&]<std::size_t N>(std::integral_constant<std::size_t, N>) {
+      std::string const r1 = show(fcppt::array::from_range<N>(v));
+      std::string const r2 = show(fcppt::array::from_range<N>(d));
+      std::string const r3 = showl(fcppt::array::from_range<N>(rvalue_strings()));
+      return r1 == r2 && r1 == r3 ? r1 : "sources-disagree " + r1 + " / " + r2 + " / " + r3;
+    };
     switch (vh::to_ull(t[1]))
     {
-    case 0: return show(fcppt::array::from_range<0>(v));
-    case 1: return show(fcppt::array::from_range<1>(v));
-    case 2: return show(fcppt::array::from_range<2>(v));
-    case 3: return show(fcppt::array::from_range<3>(v));
-    case 4: return show(fcppt::array::from_range<4>(v));
+    case 0: return all(std::integral_constant<std::size_t, 0>{});
+    case 1: return all(std::integral_constant<std::size_t, 1>{});
+    case 2: return all(std::integral_constant<std::size_t, 2>{});
+    case 3: return all(std::integral_constant<std::size_t, 3>{});
+    case 4: return all(std::integral_constant<std::size_t, 4>{});
     default: return "bad-op";
     }
   }
-  if (op == "rtindex" && t.size() == 3)
+  if (op == "rtindex" && t.size() == 4)
   {
-    auto const i = static_cast<unsigned>(vh::to_ull(t[2]));
-    auto run = [i]<unsigned Max>(std::integral_constant<unsigned, Max>) {
-      return fcppt::runtime_index<std::integral_constant<unsigned, Max>>(
-          i, [](auto const idx) { return "f " + std::to_string(decltype(idx)::value); }, [] { return std::string{"fail"}; });
+    // rtindex <u8|u32|u64> <max> <index>
+    unsigned long long const i64 = vh::to_ull(t[3]);
+    std::string const &ty = t[1];
+    if ((ty == "u8" && i64 > 255) || (ty == "u32" && i64 > 4294967295ULL) || (ty != "u8" && ty != "u32" && ty != "u64"))
+      return "bad-op";
+    auto run = [i64, &ty]<unsigned Max>(std::integral_constant<unsigned, Max>) {
+      auto const f = [](auto const idx) { return "f " + std::to_string(decltype(idx)::value); };
+      auto const fail = [] { return std::string{"fail"}; };
+      if (ty == "u8")
+        return fcppt::runtime_index<std::integral_constant<std::uint8_t, Max>>(static_cast<std::uint8_t>(i64), f, fail);
+      if (ty == "u64")
+        return fcppt::runtime_index<std::integral_constant<std::uint64_t, Max>>(static_cast<std::uint64_t>(i64), f, fail);
+      return fcppt::runtime_index<std::integral_constant<unsigned, Max>>(static_cast<unsigned>(i64), f, fail);
     };
-    switch (vh::to_ull(t[1]))
+    switch (vh::to_ull(t[2]))
     {
     case 0: return run(std::integral_constant<unsigned, 0>{});
     case 1: return run(std::integral_constant<unsigned, 1>{});
@@ -246,6 +468,13 @@ std::string handle1(std::vector<std::string> const &t)
   {
     exact const e{payload(t[1])};
     auto const r = fcppt::enum_::from_string<color>(e.view());
+    if (r.has_value())
+    {
+      // aliasing: the view of the stored name itself must be found again
+      auto const again = fcppt::enum_::from_string<color>(fcppt::enum_::to_string(r.get_unsafe()));
+      if (!again.has_value() || again.get_unsafe() != r.get_unsafe())
+        return "alias-fail";
+    }
     return r.has_value() ? "some " + std::to_string(static_cast<int>(r.get_unsafe())) : std::string{"none"};
   }
   if (op == "isflag" && t.size() == 2)
@@ -254,7 +483,7 @@ std::string handle1(std::vector<std::string> const &t)
     auto const r = fcppt::options::impl::is_flag(e.view());
     if (!r.has_value())
       return "none";
-    return std::string{r.get_unsafe().first.get() ? "short" : "long"} + " s:" + r.get_unsafe().second;
+    return std::string{r.get_unsafe().first.get() ? "short" : "long"} + " " + out_str(r.get_unsafe().second);
   }
   if (op == "nextarg" && t.size() == 3)
   {
@@ -275,57 +504,86 @@ std::string handle1(std::vector<std::string> const &t)
     auto const r = fcppt::options::impl::next_arg(args, names);
     return r.has_value() ? "some " + std::to_string(r.get_unsafe() - args.begin()) : std::string{"none"};
   }
-  if (op == "readchars" && t.size() == 3)
-  {
-    std::istringstream in{payload(t[1])};
-    auto const r = fcppt::io::read_chars(in, static_cast<std::size_t>(vh::to_ull(t[2])));
-    if (!r.has_value())
-      return "none";
-    return "some s:" + std::string(r.get_unsafe().begin(), r.get_unsafe().end());
-  }
-  if (op == "streamtostring" && t.size() == 2)
-  {
-    std::istringstream in{payload(t[1])};
-    auto const r = fcppt::io::stream_to_string(in);
-    return r.has_value() ? "some s:" + r.get_unsafe() : std::string{"none"};
-  }
   if (op == "filesize" && t.size() == 2)
   {
-    std::filesystem::path const p =
-        t[1] == "emptypath" ? std::filesystem::path{}
-        : t[1] == "dot"     ? std::filesystem::path{"."}
-        : t[1] == "longname" ? scratch / std::string(300, 'n')                 // ENAMETOOLONG
-        : t[1] == "underfile" ? scratch / "file5" / "x"                         // ENOTDIR
-        : t[1] == "underloop" ? scratch / "selfloop" / "x"                      // ELOOP in a parent component
-        : t[1] == "longpath" ? scratch / std::string(5000, 'p')                 // longer than PATH_MAX
-                             : scratch / t[1];
-    auto const r = fcppt::filesystem::file_size(p);
+    auto const r = fcppt::filesystem::file_size(path_of_kind(t[1]));
     return r.has_value() ? "some " + std::to_string(r.get_unsafe()) : std::string{"none"};
   }
-  if (op == "rmext" && t.size() == 2)
+  if ((op == "extract" || op == "extractg") && t.size() == 3)
   {
-    std::filesystem::path const r = fcppt::filesystem::remove_extension(std::filesystem::path{payload(t[1])});
-    (void)r;
-    return "ok";
-  }
-  if (op == "extract" && t.size() == 3)
-  {
+    // extract_from_string (locale = fcppt::insert_extract_locale(), which is the global locale) with the global locale
+    // left classic, and extract_from_string_locale for the classic locale and for C.utf8 while the GLOBAL locale
+    // groups digits: an implementation that forgets to imbue the locale it was given reads "1,000" as 1000.
+    // `extractg` runs the default variant under the grouping global locale as well (see notes: DEFECT CANDIDATE).
     std::string const s = payload(t[2]);
-    if (t[1] == "int") (void)fcppt::extract_from_string<int>(s);
-    else if (t[1] == "uint") (void)fcppt::extract_from_string<unsigned>(s);
-    else if (t[1] == "short") (void)fcppt::extract_from_string<short>(s);
-    else if (t[1] == "ulong") (void)fcppt::extract_from_string<unsigned long>(s);
-    else if (t[1] == "string") (void)fcppt::extract_from_string<std::string>(s);
-    else return "bad-op";
-    return "ok";
-  }
-  if (op == "dyncast" && t.size() == 2)
-  {
-    d1 a;
-    d2 b;
-    base c;
-    base &ref = t[1] == "d1" ? static_cast<base &>(a) : t[1] == "d2" ? static_cast<base &>(b) : c;
-    return fcppt::cast::dynamic<d1>(ref).has_value() ? "some" : "none";
+    static std::locale const cutf8{"C.utf8"};
+    bool const global_too = op == "extractg";
+    auto run = [&s, global_too]<typename T>(fcppt::tag<T>) {
+      auto show = [](fcppt::optional::object<T> const &o) {
+        if (!o.has_value())
+          return std::string{"none"};
+        if constexpr (std::is_same_v<T, std::string>)
+          return "some " + hex_payload(o.get_unsafe());
+        else
+          return "some " + std::to_string(o.get_unsafe());
+      };
+      std::string r1 = show(fcppt::extract_from_string<T>(s));
+      hostile_locale_guard const guard{};
+      std::string const r2 = show(fcppt::extract_from_string_locale<T>(s, std::locale::classic()));
+      std::string const r3 = show(fcppt::extract_from_string_locale<T>(s, cutf8));
+      if (global_too)
+        r1 = show(fcppt::extract_from_string<T>(s));
+      if constexpr (!std::is_same_v<T, std::string>)
+      {
+        bool ascii = true;
+        for (unsigned char c : s)
+          ascii = ascii && c < 0x80;
+        if (ascii)
+        {
+          // the std::wstring instantiation
+          std::string const r4 = show(fcppt::extract_from_string_locale<T>(std::wstring(s.begin(), s.end()), std::locale::classic()));
+          if (r4 != r2)
+            return "wide-disagrees " + r2 + " / " + r4;
+        }
+      }
+      return r1 == r2 && r1 == r3 ? r1 : "locales-disagree " + r1 + " / " + r2 + " / " + r3;
+    };
+    if (t[1] == "int") return run(fcppt::tag<int>{});
+    if (t[1] == "uint") return run(fcppt::tag<unsigned>{});
+    if (t[1] == "short") return run(fcppt::tag<short>{});
+    if (t[1] == "ulong") return run(fcppt::tag<unsigned long>{});
+    if (t[1] == "long") return run(fcppt::tag<long>{});
+    if (t[1] == "string") return run(fcppt::tag<std::string>{});
+    if (t[1] == "float" || t[1] == "double")
+    {
+      auto run_float = [&s]<typename T>(fcppt::tag<T>) {
+        auto show = [](fcppt::optional::object<T> const &o) {
+          if (!o.has_value())
+            return std::string{"none"};
+          T const v = o.get_unsafe();
+          return std::string{"some "} + (v != v ? "nan" : v == std::numeric_limits<T>::infinity() || v == -std::numeric_limits<T>::infinity() ? "inf" : v == T{0} ? "zero" : "finite");
+        };
+        std::string const r1 = show(fcppt::extract_from_string<T>(s));
+        hostile_locale_guard const guard{};
+        std::string const r2 = show(fcppt::extract_from_string_locale<T>(s, std::locale::classic()));
+        return r1 == r2 ? r1 : "locales-disagree " + r1 + " / " + r2;
+      };
+      return t[1] == "float" ? run_float(fcppt::tag<float>{}) : run_float(fcppt::tag<double>{});
+    }
+    if (t[1] == "char" || t[1] == "uchar" || t[1] == "schar")
+    {
+      auto run_char = [&s]<typename T>(fcppt::tag<T>) {
+        auto show = [](fcppt::optional::object<T> const &o) { return o.has_value() ? "some " + std::to_string(static_cast<int>(o.get_unsafe())) : std::string{"none"}; };
+        std::string const r1 = show(fcppt::extract_from_string<T>(s));
+        hostile_locale_guard const guard{};
+        std::string const r2 = show(fcppt::extract_from_string_locale<T>(s, std::locale::classic()));
+        return r1 == r2 ? r1 : "locales-disagree " + r1 + " / " + r2;
+      };
+      if (t[1] == "char") return run_char(fcppt::tag<char>{});
+      if (t[1] == "uchar") return run_char(fcppt::tag<unsigned char>{});
+      return run_char(fcppt::tag<signed char>{});
+    }
+    return "bad-op";
   }
   return handle(t); // scalar tables of C06
 }
@@ -364,6 +622,7 @@ std::string guarded(std::vector<std::string> const &t)
 int main()
 {
   init();
+  c01::prepare_env();
   c01::make_scratch();
   vh::op_budget() = 60;
   int const rc = vh::run(c01::guarded);
